@@ -13,6 +13,12 @@ Streams (every real call is mirrored by one request to the compiled Lean model):
             called several times in a row on equal-but-distinguishable inputs, the previous
             result mutated in between; every call against the oracle and the model   ccall, cbox
   function  cartesian.Function objects composed with >> / @ / Function.id  ccall
+  callable  the KIND of callable held by a box: builtins and types with and without an
+            inspectable signature, operator.*, functools.partial, functools.wraps wrappers that
+            change the arity, bound / unbound / static / class methods, callable instances,
+            classes, lambdas with *args / **kwargs / defaults — each through every constructor
+            route, alone and inside random diagrams over sorted wires; constructing the box
+            must not raise; evaluated against the oracle interpreter           (oracle only)
 
 The model has no history (a call is a function of its inputs) and wire values are typed tokens
 (`show`): the comparison is type-sensitive, never Python's `==`.
@@ -227,6 +233,26 @@ def tok_of(box):
     return box._c19tok
 
 
+class Refused(Exception):
+    """A constructor of the library raised while a box of the pool was being built.  A box whose
+    function really has another arity than declared (flavour badarity) may be refused when it is
+    built rather than when it is called — the property speaks about calls; any other box must be
+    constructible."""
+    def __init__(self, tok, m, n, exc, route="Box"):
+        Exception.__init__(self, "%s %d -> %d: %r" % (tok, m, n, exc))
+        self.tok, self.m, self.n, self.exc, self.route, self.flavour = tok, m, n, exc, route, "clean"
+
+
+def refused(rep, stream, e):
+    """Accounts for a Refused: counted for badarity boxes, a failure with its input otherwise."""
+    if e.flavour == "badarity":
+        rep.count("badarity:refused_by_constructor:" + err_class(e.exc))
+        return
+    rep.fail("box_construction_raises:pool",
+             dict(stream=stream, token=e.tok, dom=e.m, cod=e.n, route=e.route, flavour=e.flavour),
+             "a box %d -> %d around the pool function %s cannot be built: %r" % (e.m, e.n, e.tok, e.exc))
+
+
 def make_box(tok, m, n, name=None, wrap=None, via_disco=False):
     """A cartesian.Box declared m -> n around the pool function `tok`.
     name=None: the token is the name (and the library's own ADD/SWAP/COPY/DISCARD are used when
@@ -242,9 +268,12 @@ def make_box(tok, m, n, name=None, wrap=None, via_disco=False):
     given = cartesian.Id(int(tok.split(":")[1])) if tok.startswith("ident:") else fn
     if wrap is not None and not tok.startswith("ident:"):
         given = WRAPS[wrap](fn)
-    if via_disco and hasattr(given, "__name__"):
-        return tag(cartesian.disco(m, n)(given), tok, fn)
-    box = tag(cartesian.Box(tok if name is None else name, m, n, given), tok, fn)
+    try:
+        if via_disco and hasattr(given, "__name__"):
+            return tag(cartesian.disco(m, n)(given), tok, fn)
+        box = tag(cartesian.Box(tok if name is None else name, m, n, given), tok, fn)
+    except Exception as exc:
+        raise Refused(tok, m, n, exc, "disco" if via_disco else "Box")
     box._c19falsy = not given
     return box
 
@@ -257,7 +286,10 @@ def sub_box(name, inner):
 
     def fn(*xs):
         return pack_result(splice(dom, boxes, offsets, xs)[0])
-    return tag(cartesian.Box(name, len(inner.dom), len(inner.cod), inner), None, fn)
+    try:
+        return tag(cartesian.Box(name, len(inner.dom), len(inner.cod), inner), None, fn)
+    except Exception as exc:
+        raise Refused("sub-diagram " + safe_repr(inner, 120), len(inner.dom), len(inner.cod), exc)
 
 
 def safe_repr(x, cap=300):
@@ -496,8 +528,12 @@ class Gen:
                 n = 1
                 if width - m + 1 > self.W:
                     m = 1
-            out.append((self.box(self.token(m, n, fl), m, n, clean=(fl == "clean")),
-                        r.randint(0, width - m)))
+            try:
+                box = self.box(self.token(m, n, fl), m, n, clean=(fl == "clean"))
+            except Refused as e:
+                e.flavour = fl
+                raise
+            out.append((box, r.randint(0, width - m)))
             self.seen.append((m, n))
             width = width - m + n
         return out, width
@@ -639,7 +675,10 @@ class TGen(Gen):
             fn = given = py_prim(tok)
         routes = [x for x in ROUTES if hasattr(given, "__name__") or x not in NEED_NAME]
         route = r.choice(routes)
-        box = route_box(route, r.choice(SHARED_NAMES + [tok, tok]), m, n, given)
+        try:
+            box = route_box(route, r.choice(SHARED_NAMES + [tok, tok]), m, n, given)
+        except Exception as exc:
+            raise Refused(tok, m, n, exc, route)
         tag(box, None if kind in UNMODELLED else tok, fn)
         box._c19given, box._c19route = given, route
         self.rep.count("route:" + route)
@@ -662,6 +701,411 @@ class TGen(Gen):
             out.append((b, r.randint(0, width - m)))
             width = width - m + n
         return out, width
+
+
+# --------------------------------------------------------------------------- kinds of callables
+
+# "Diagrams of Python functions": the function of a box may be ANY callable — a builtin or a type
+# (with or without a signature `inspect` can read), an operator.* object, a functools.partial, a
+# functools.wraps-decorated wrapper whose arity differs from the wrapped function's, a bound
+# method, an instance with __call__, a class, a static / class method, a lambda with *args,
+# **kwargs or defaults.  The catalog below lists such callables with the SORTS of wires they take
+# and give (i int/bool, s numeric string, t text, L list of ints, R range, T iterator, o opaque),
+# so that diagrams of them can be grown layer by layer and mostly evaluate without an exception.
+
+class Pair:
+    """A user class used as a box function (2 -> 1) and as a wire value."""
+    def __init__(self, left, right=0):
+        self.left, self.right = left, right
+
+    def __repr__(self):
+        return "Pair(%r,%r)" % (self.left, self.right)
+
+    def total(self):
+        return self.left + self.right
+
+    def shifted(self, k):
+        return self.left + self.right + k
+
+    @staticmethod
+    def static_sum(x, y):
+        return x + 2 * y
+
+    @classmethod
+    def diagonal(cls, x):
+        return cls(x, x)
+
+
+class Adder:
+    """An instance with __call__ of fixed arity."""
+    def __init__(self, k):
+        self.k = k
+
+    def __call__(self, x):
+        return x + self.k
+
+    def __repr__(self):
+        return "Adder(%r)" % (self.k,)
+
+
+class Variadic:
+    """An instance with __call__(*args)."""
+    def __call__(self, *xs):
+        return len(xs) + sum(xs)
+
+
+def with_last_fixed(value):
+    """A decorator fixing the LAST argument: the wrapper takes one argument fewer than the wrapped
+    function whose metadata (and `__wrapped__`) it carries."""
+    import functools
+
+    def decorator(func):
+        @functools.wraps(func)
+        def wrapper(*xs):
+            return func(*(xs + (value,)))
+        return wrapper
+    return decorator
+
+
+def with_extra_argument(func):
+    """A decorator ADDING an argument: wrapper(x, ..., extra) = func(x, ...) + extra."""
+    import functools
+
+    @functools.wraps(func)
+    def wrapper(x, extra):
+        return func(x) + extra
+    return wrapper
+
+
+def fixed_arity_wrapper(func):
+    """functools.wraps around a *args function: the wrapper is stricter than the wrapped."""
+    import functools
+
+    @functools.wraps(func)
+    def wrapper(x, y):
+        return func(x, y)
+    return wrapper
+
+
+def callable_catalog():
+    """[(label, kind, accepted input sorts per wire, output sorts, make)] with make() -> callable."""
+    import functools
+    import operator
+
+    def plus(x, y):
+        return x + y
+
+    def double(x):
+        return 2 * x
+
+    def spread(*xs):
+        return sum(xs) - len(xs)
+
+    def cached():
+        @functools.lru_cache(maxsize=None)
+        def square(x):
+            return x * x
+        return square
+
+    C = []
+    add = lambda label, kind, ins, outs, make: C.append((label, kind, tuple(ins), tuple(outs), make))
+    # builtins and types whose signature inspect cannot read (ValueError on Python <= 3.12)
+    add("max", "builtin_nosig", ["i", "i"], ["i"], lambda: max)
+    add("max3", "builtin_nosig", ["i", "i", "i"], ["i"], lambda: max)
+    add("max_of_list", "builtin_nosig", ["LR"], ["i"], lambda: max)
+    add("min", "builtin_nosig", ["i", "i"], ["i"], lambda: min)
+    add("int_of_str", "type_nosig", ["s"], ["i"], lambda: int)
+    add("int_of_int", "type_nosig", ["i"], ["i"], lambda: int)
+    add("int0", "type_nosig", [], ["i"], lambda: int)
+    add("str", "type_nosig", ["i"], ["s"], lambda: str)
+    add("str_of_list", "type_nosig", ["LR"], ["t"], lambda: str)
+    add("str0", "type_nosig", [], ["t"], lambda: str)
+    add("bool", "type_nosig", ["isLt"], ["i"], lambda: bool)
+    add("bool0", "type_nosig", [], ["i"], lambda: bool)
+    add("dict0", "type_nosig", [], ["o"], lambda: dict)
+    add("range1", "type_nosig", ["i"], ["R"], lambda: range)
+    add("range2", "type_nosig", ["i", "i"], ["R"], lambda: range)
+    add("zip", "type_nosig", ["LRT", "LRT"], ["T"], lambda: zip)
+    add("zip1", "type_nosig", ["LRT"], ["T"], lambda: zip)
+    add("map", "type_nosig", ["F", "LRT"], ["T"], lambda: map)
+    add("iter", "builtin_nosig", ["LR"], ["T"], lambda: iter)
+    add("next", "builtin_nosig", ["T"], ["o"], lambda: next)
+    add("next_default", "builtin_nosig", ["T", "i"], ["o"], lambda: next)
+    add("set", "type_nosig", ["LRT"], ["o"], lambda: set)
+    add("frozenset", "type_nosig", ["LR"], ["o"], lambda: frozenset)
+    add("type", "type_nosig", ["isLRto"], ["o"], lambda: type)
+    add("getattr_real", "builtin_nosig", ["i", "A"], ["i"], lambda: getattr)
+    add("slice", "type_nosig", ["i", "i"], ["o"], lambda: slice)
+    # builtins and types with a readable signature
+    add("len", "builtin_sig", ["LRst"], ["i"], lambda: len)
+    add("sum", "builtin_sig", ["LRT"], ["i"], lambda: sum)
+    add("sum_start", "builtin_sig", ["LRT", "i"], ["i"], lambda: sum)
+    add("sorted", "builtin_sig", ["LRT"], ["L"], lambda: sorted)
+    add("divmod", "builtin_sig", ["i", "i"], ["i", "i"], lambda: divmod)
+    add("abs", "builtin_sig", ["i"], ["i"], lambda: abs)
+    add("pow", "builtin_sig", ["i", "d"], ["i"], lambda: pow)
+    add("pow_mod", "builtin_sig", ["i", "d", "i"], ["i"], lambda: pow)
+    add("list", "type_sig", ["LRT"], ["L"], lambda: list)
+    add("list0", "type_sig", [], ["L"], lambda: list)
+    add("complex", "type_sig", ["i", "i"], ["o"], lambda: complex)
+    add("float", "type_sig", ["is"], ["o"], lambda: float)
+    add("enumerate", "type_sig", ["LRT"], ["T"], lambda: enumerate)
+    add("reversed", "type_sig", ["LR"], ["T"], lambda: reversed)
+    add("repr", "builtin_sig", ["isLRt"], ["t"], lambda: repr)
+    add("hex", "builtin_sig", ["i"], ["t"], lambda: hex)
+    # operator.*
+    add("operator.add", "operator", ["i", "i"], ["i"], lambda: operator.add)
+    add("operator.add_lists", "operator", ["L", "L"], ["L"], lambda: operator.add)
+    add("operator.add_str", "operator", ["s", "s"], ["s"], lambda: operator.add)
+    add("operator.neg", "operator", ["i"], ["i"], lambda: operator.neg)
+    add("operator.mul", "operator", ["L", "d"], ["L"], lambda: operator.mul)
+    add("itemgetter(0)", "operator_nosig", ["L"], ["i"], lambda: operator.itemgetter(0))
+    add("itemgetter(0,-1)", "operator_nosig", ["L"], ["i", "i"], lambda: operator.itemgetter(0, -1))
+    add("attrgetter(real)", "operator_nosig", ["i"], ["i"], lambda: operator.attrgetter("real"))
+    add("attrgetter(real,imag)", "operator_nosig", ["i"], ["i", "i"],
+        lambda: operator.attrgetter("real", "imag"))
+    add("attrgetter(left)", "operator_nosig", ["P"], ["i"], lambda: operator.attrgetter("left"))
+    add("methodcaller(bit_length)", "operator_nosig", ["i"], ["i"],
+        lambda: operator.methodcaller("bit_length"))
+    add("methodcaller(count,1)", "operator_nosig", ["L"], ["i"], lambda: operator.methodcaller("count", 1))
+    add("methodcaller(zfill,5)", "operator_nosig", ["s"], ["s"], lambda: operator.methodcaller("zfill", 5))
+    add("methodcaller(total)", "operator_nosig", ["P"], ["i"], lambda: operator.methodcaller("total"))
+    # functools.partial
+    add("partial(max,0)", "partial", ["i"], ["i"], lambda: functools.partial(max, 0))
+    add("partial(pow,2)", "partial", ["d"], ["i"], lambda: functools.partial(pow, 2))
+    add("partial(sorted,reverse)", "partial", ["LRT"], ["L"], lambda: functools.partial(sorted, reverse=True))
+    add("partial(plus,10)", "partial", ["i"], ["i"], lambda: functools.partial(plus, 10))
+    add("partial(plus,1,2)", "partial", [], ["i"], lambda: functools.partial(plus, 1, 2))
+    add("partial(map,abs)", "partial", ["LR"], ["T"], lambda: functools.partial(map, abs))
+    add("partial(int,base=2)", "partial", ["b"], ["i"], lambda: functools.partial(int, base=2))
+    add("partial(partial)", "partial", ["i"], ["i"],
+        lambda: functools.partial(functools.partial(spread, 1), 2))
+    # functools.wraps wrappers whose arity differs from the wrapped function's
+    add("wraps:fewer(plus)", "wraps_arity", ["i"], ["i"], lambda: with_last_fixed(10)(plus))
+    add("wraps:fewer_to_state(double)", "wraps_arity", [], ["i"], lambda: with_last_fixed(4)(double))
+    add("wraps:fewer(divmod)", "wraps_arity", ["i"], ["i", "i"], lambda: with_last_fixed(7)(divmod))
+    add("wraps:more(double)", "wraps_arity", ["i", "i"], ["i"], lambda: with_extra_argument(double))
+    add("wraps:more(abs)", "wraps_arity", ["i", "i"], ["i"], lambda: with_extra_argument(abs))
+    add("wraps:fixed(spread)", "wraps_same", ["i", "i"], ["i"], lambda: fixed_arity_wrapper(spread))
+    add("wraps:fewer(max)", "wraps_arity", ["i"], ["i"], lambda: with_last_fixed(5)(max))
+    add("lru_cache(square)", "wraps_same", ["i"], ["i"], cached)
+    # bound methods (of builtins and of user objects), unbound methods
+    add("(5).__add__", "bound_method", ["i"], ["i"], lambda: (5).__add__)
+    add("'{}-{}'.format", "bound_method_nosig", ["i", "is"], ["t"], lambda: "{}-{}".format)
+    add("'0'.join", "bound_method", ["q"], ["s"], lambda: "0".join)
+    add("[3,1,2].index", "bound_method", ["k"], ["i"], lambda: [3, 1, 2].index)
+    add("Pair(1,2).shifted", "bound_method", ["i"], ["i"], lambda: Pair(1, 2).shifted)
+    add("Pair(1,2).total", "bound_method", [], ["i"], lambda: Pair(1, 2).total)
+    add("Pair.total", "unbound_method", ["P"], ["i"], lambda: Pair.total)
+    add("str.upper", "unbound_method", ["st"], ["t"], lambda: str.upper)
+    add("int.bit_length", "unbound_method", ["i"], ["i"], lambda: int.bit_length)
+    add("dict.fromkeys", "bound_method", ["LR"], ["o"], lambda: dict.fromkeys)
+    # instances with __call__, classes, static / class methods
+    add("Adder(3)", "callable_instance", ["i"], ["i"], lambda: Adder(3))
+    add("Variadic()", "callable_instance", ["i", "i"], ["i"], lambda: Variadic())
+    add("Variadic()0", "callable_instance", [], ["i"], lambda: Variadic())
+    add("Pair", "class", ["i", "i"], ["P"], lambda: Pair)
+    add("Pair1", "class", ["i"], ["P"], lambda: Pair)
+    add("Adder", "class", ["i"], ["F"], lambda: Adder)
+    add("Pair.static_sum", "staticmethod", ["i", "i"], ["i"], lambda: Pair.static_sum)
+    add("Pair(0).static_sum", "staticmethod", ["i", "i"], ["i"], lambda: Pair(0).static_sum)
+    add("staticmethod_object", "staticmethod", ["i", "i"], ["i"], lambda: Pair.__dict__["static_sum"])
+    add("Pair.diagonal", "classmethod", ["i"], ["P"], lambda: Pair.diagonal)
+    # lambdas / defs with *args, **kwargs, defaults, keyword-only arguments
+    add("lambda*xs:0", "lambda_varargs", [], ["i"], lambda: (lambda *xs: len(xs) + sum(xs)))
+    add("lambda*xs:1", "lambda_varargs", ["i"], ["i"], lambda: (lambda *xs: len(xs) + sum(xs)))
+    add("lambda*xs:3", "lambda_varargs", ["i", "i", "i"], ["i"], lambda: (lambda *xs: len(xs) + sum(xs)))
+    add("lambda*xs->xs", "lambda_varargs", ["i", "i"], ["i", "i"], lambda: (lambda *xs: xs[::-1]))
+    add("lambda_default:1", "lambda_defaults", ["i"], ["i"], lambda: (lambda x, y=10: x - y))
+    add("lambda_default:2", "lambda_defaults", ["i", "i"], ["i"], lambda: (lambda x, y=10: x - y))
+    add("lambda_default:0", "lambda_defaults", [], ["i"], lambda: (lambda x=1, y=10: x - y))
+    add("lambda**kw", "lambda_kwargs", [], ["i"], lambda: (lambda **kw: len(kw)))
+    add("lambda_x**kw", "lambda_kwargs", ["i"], ["i"], lambda: (lambda x, **kw: x + len(kw)))
+    add("lambda_x*rest_kwonly", "lambda_kwargs", ["i", "i"], ["i"],
+        lambda: (lambda x, *rest, k=2, **kw: x + k * len(rest)))
+    add("lambda_posonly", "lambda_defaults", ["i", "i"], ["i"], lambda: eval("lambda x, /, y: x - 2 * y"))
+    # plain lambdas that put functions / other sorts on wires (states)
+    add("state:abs", "state", [], ["F"], lambda: (lambda: abs))
+    add("state:str", "state", [], ["F"], lambda: (lambda: str))
+    add("state:'real'", "state", [], ["A"], lambda: (lambda: "real"))
+    add("state:'101'", "state", [], ["b"], lambda: (lambda: "101"))
+    add("state:['4','2']", "state", [], ["q"], lambda: (lambda: ["4", "2"]))
+    add("state:1", "state", [], ["k"], lambda: (lambda: 1))
+    add("state:small", "state", [], ["d"], lambda: (lambda: 3))
+    return C
+
+
+CALLABLE_SORT_OF_INPUT = "iisL"          # sorts drawn for the diagram's own inputs
+
+
+def callable_input(r, sort):
+    if sort == "i":
+        return r.choice([r.randint(-9, 99), r.randint(-9, 99), 0, 1, True])
+    if sort == "s":
+        return str(r.randint(0, 99))
+    return [r.randint(-9, 20) for _ in range(r.randint(1, 4))]
+
+
+def fits(entry, wires, off):
+    ins = entry[2]
+    return off + len(ins) <= len(wires) and all(w in acc or (w in "kd" and "i" in acc)
+                                                for w, acc in zip(wires[off:off + len(ins)], ins))
+
+
+def callable_box(rep, r, entry, route=None):
+    """A cartesian box around a catalog callable, through one of the constructor routes; a
+    constructor that raises is a failure with its input."""
+    label, kind, ins, outs, make = entry
+    given = make()
+    routes = [x for x in ROUTES if hasattr(given, "__name__") or x not in NEED_NAME]
+    route = route or r.choice(routes)
+    m, n = len(ins), len(outs)
+    try:
+        box = route_box(route, label, m, n, given)
+    except Exception as exc:
+        rep.fail("box_construction_raises:" + kind,
+                 dict(callable=label, kind=kind, dom=m, cod=n, route=route, function=safe_repr(given, 120)),
+                 "a box %d -> %d around the callable %s cannot be built (%s): %r" % (
+                     m, n, label, route, exc))
+        return None
+    tag(box, None, given)          # no model counterpart; the oracle calls what the box was GIVEN
+    box._c19given, box._c19route, box._c19kind = given, route, kind
+    rep.count("callable_kind:" + kind)
+    rep.count("callable_route:" + route)
+    return box
+
+
+def callable_layers(rep, r, catalog, sorts, depth, max_width=6):
+    """[(box, offset)] grown over wires of the given sorts; iterators left at the end are read
+    out with `list`.  Returns (layers, sorts at the end) or None when a constructor raised."""
+    from discopy import cartesian
+    wires, out = list(sorts), []
+    list_entry = next(e for e in catalog if e[0] == "list")
+    steps = 0
+    while steps < depth or "T" in wires:
+        steps += 1
+        if steps > depth:                                   # read the iterators out
+            off = wires.index("T")
+            entry = list_entry
+        else:
+            options = [(e, off) for e in catalog for off in range(len(wires) + 1)
+                       if fits(e, wires, off) and len(wires) - len(e[2]) + len(e[3]) <= max_width]
+            k = r.random()
+            if k < 0.12 and len(wires) >= 2:
+                off = r.randrange(len(wires) - 1)
+                out.append((cartesian.SWAP, off))
+                wires[off:off + 2] = [wires[off + 1], wires[off]]
+                continue
+            if k < 0.22 and len(wires) < max_width and any(w != "T" for w in wires):
+                off = r.choice([j for j, w in enumerate(wires) if w != "T"])
+                out.append((cartesian.COPY, off))
+                wires[off:off + 1] = [wires[off], wires[off]]
+                continue
+            if k < 0.27 and wires:
+                off = r.randrange(len(wires))
+                out.append((cartesian.DISCARD, off))
+                del wires[off]
+                continue
+            if not options:
+                continue
+            # draw the KIND first: every kind of callable is used about equally often
+            kinds = sorted({e[1] for e, _ in options})
+            kind = r.choice(kinds)
+            entry, off = r.choice([(e, o) for e, o in options if e[1] == kind])
+        box = callable_box(rep, r, entry)
+        if box is None:
+            return None
+        out.append((box, off))
+        wires[off:off + len(entry[2])] = list(entry[3])
+    return out, wires
+
+
+def stream_callable(rep, cases, rng, n, thorough):
+    """Diagrams whose boxes hold every kind of Python callable, against the oracle interpreter."""
+    catalog = callable_catalog()
+    # every catalog entry through the constructor routes, on inputs of its sorts: wires of a sort
+    # that cannot be drawn directly (function, iterator, range, Pair, ...) are fed by a box above
+    from discopy import cartesian
+    r = random.Random(rng.getrandbits(64))
+
+    list_entry = next(e for e in catalog if e[0] == "list")
+
+    def feeder_for(acc):
+        states = [e for e in catalog if not e[2] and len(e[3]) == 1 and e[3][0] in acc]
+        if states:
+            return states[0]
+        via = [e for e in catalog if len(e[3]) == 1 and e[3][0] in acc and e[2]
+               and all(any(c in "isL" for c in a) for a in e[2])]
+        return via[0] if via else None
+
+    for entry in catalog:
+        label, kind, ins, outs, make = entry
+        has_name = hasattr(make(), "__name__")
+        for route in ROUTES:
+            if route in NEED_NAME and not has_name:
+                continue
+            if not thorough and route not in ("Box", "disco_name") and r.random() < 0.5:
+                continue
+            top, xs, fed, bad = cartesian.Id(0), [], 0, False
+            for acc in ins:
+                direct = [c for c in acc if c in "isL"]
+                if direct:
+                    top = top @ cartesian.Id(1)
+                    xs.append(callable_input(r, direct[0]))
+                    continue
+                feeder = feeder_for(acc)
+                fb = callable_box(rep, r, feeder, route="Box") if feeder else None
+                if fb is None:
+                    bad = True
+                    break
+                top, fed = top @ fb, fed + 1
+                xs += [callable_input(r, [c for c in a if c in "isL"][0]) for a in feeder[2]]
+            box = None if bad else callable_box(rep, r, entry, route=route)
+            if box is None:
+                rep.count("callable:alone_not_built")
+                continue
+            try:
+                d = top >> box
+                if "T" in outs:                              # iterators are read out with `list`
+                    tail = cartesian.Id(0)
+                    for c in outs:
+                        tail = tail @ (callable_box(rep, r, list_entry, route="Box") if c == "T"
+                                       else cartesian.Id(1))
+                    d = d >> tail
+            except Exception as exc:
+                rep.fail("callable_build_raises", dict(callable=label, route=route),
+                         "composing well-typed boxes raised %r" % (exc,))
+                continue
+            rep.count("callable:alone")
+            check_call(rep, cases, d, tuple(xs), "callable:alone:" + route, "callable", stream="callable")
+            if not fed and "T" not in outs:
+                check_box_alone(rep, cases, box, tuple(fresh(xs)))
+    # random diagrams over the catalog
+    for k in range(n):
+        r = random.Random(rng.getrandbits(64))
+        dom = r.randint(0, 4)
+        sorts = [r.choice(CALLABLE_SORT_OF_INPUT) for _ in range(dom)]
+        xs = tuple(callable_input(r, c) for c in sorts)
+        grown = callable_layers(rep, r, catalog, sorts, r.randint(1, 8 if thorough else 6))
+        if grown is None:
+            continue
+        layers, end = grown
+        how = "public" if k % 2 == 0 else "ops"
+        try:
+            d = build_public(dom, len(end), layers) if k % 2 == 0 else build_ops(r, dom, layers)
+        except Exception as exc:
+            rep.fail("callable_build_raises", dict(layers=safe_repr(layers), built=how),
+                     "building a well-typed diagram raised %r" % (exc,))
+            continue
+        kinds = sorted({getattr(b, "_c19kind", "structural") for b, _ in layers})
+        rep.count("callable:diagram_kinds:%d" % len(kinds))
+        rep.count("callable:depth:%d" % len(layers))
+        real = check_call(rep, cases, d, xs, "callable:" + how, "callable", stream="callable")
+        rep.count("callable:result:" + real.split(" ")[0 if real.startswith("ok") else 1])
+        if k % 4 == 0:                                       # second call of the same object
+            check_call(rep, cases, d, fresh(xs), "callable:" + how, "callable", stream="callable",
+                       history=["called on %s -> %s" % (show(tuple(xs)), real[:200])])
+
 
 
 # --------------------------------------------------------------------------- the check
@@ -786,10 +1230,18 @@ def run(tier, seed, replay=None):
                 "depth 1-5, typed wire values int/float/bool/None/str/bytes/list/dict/set/frozenset, "
                 "boxes through 9 constructor routes, box objects reused, states, counters, fresh "
                 "lists) called 2-4 times on same / equal-but-distinguishable / new inputs with the "
-                "earlier result mutated in between; non-trivial = a successful "
+                "earlier result mutated in between; callable: 110 catalogued Python callables of 20 "
+                "kinds (builtins/types with and without inspectable signature, operator.*, partial, "
+                "arity-changing functools.wraps wrappers, methods, callable instances, classes, "
+                "lambdas with *args/**kwargs/defaults) x constructor routes, alone and in random "
+                "diagrams of depth 1-%d over sorted wires; non-trivial = a successful "
                 "call of a diagram with >= 2 boxes; distinct by request line"
-                % ((8, 24, 6) if thorough else (6, 10, 4)))
+                % ((8, 24, 6, 8) if thorough else (6, 10, 4, 6)))
     rep.partial = [
+        "callable stream: Python's own callables (builtins, operator.*, functools objects, methods, "
+        "classes) have no counterpart in the model's pool: those diagrams are compared with the "
+        "oracle interpreter only (stream:callable(oracle only)); the theorems quantify over "
+        "arbitrary box functions",
         "history stream: boxes that are impure (counters) or return a fresh list/dict have no model "
         "counterpart (the model's boxes are functions of their arguments): compared with the oracle "
         "interpreter only, counted under stream:history(oracle only)",
@@ -826,7 +1278,11 @@ def run(tier, seed, replay=None):
             depth = r.choice([0, 1, 1, 2, 3]) if r.random() < 0.3 else r.randint(0, D)
             roll = k % 20
             flavour = "tuplewire" if roll in (17,) else "badarity" if roll in (18, 19) else "clean"
-            layers, cod = g.layers(dom, depth, flavour)
+            try:
+                layers, cod = g.layers(dom, depth, flavour)
+            except Refused as e:
+                refused(rep, "call", e)
+                continue
             rep.count("flavour:" + flavour)
             rep.count("depth:%s" % (depth if depth < 11 else "11+"))
             rep.count("width:%d" % dom)
@@ -974,7 +1430,11 @@ def run(tier, seed, replay=None):
                 t = g.token(m, m, "clean")
                 if t not in toks and not t.startswith(("pack", "ident")):
                     toks.append(t)
-            bs = [make_box(t, m, m, name=name, via_disco=(name == "<lambda>")) for t in toks]
+            try:
+                bs = [make_box(t, m, m, name=name, via_disco=(name == "<lambda>")) for t in toks]
+            except Refused as e:
+                refused(rep, "samename", e)
+                continue
             if m == 2 and name == "swap":
                 bs[r.randrange(count)] = cartesian.SWAP
             if m == 1 and r.random() < 0.3:
@@ -1000,27 +1460,31 @@ def run(tier, seed, replay=None):
         for k in range(400 if thorough else 90):
             r = random.Random(rng.getrandbits(64))
             g = Gen(r, W, D)
-            pre, w = g.layers(r.randint(0, W), r.randint(0, 3))
-            kind = ("ident", "sub", "wrap", "unit")[k % 4]
-            if kind == "ident":
-                m = r.randint(0, min(3, w))
-                special = make_box("ident:%d" % m, m, m, name=r.choice(["wires", "id", "f"]))
-            elif kind == "unit":
-                special = make_box("ident:0", 0, 0, name="unit")
-            elif kind == "sub":
-                a = r.randint(0, min(3, w))
-                gi = Gen(r, min(W, W - (w - a)), 4)
-                il, ic = gi.layers(a, r.randint(0, 4))
-                inner = build_public(a, ic, il) if r.random() < 0.5 else build_ops(r, a, il)
-                special = sub_box(r.choice(["sub", "f", "<lambda>"]), inner)
-            else:
-                m = r.randint(0, min(3, w))
-                n = r.randint(0, min(3, W - (w - m)))
-                special = make_box(g.token(m, n, "clean"), m, n, wrap=r.choice(sorted(WRAPS)),
-                                   name=r.choice([None, "lookup", "f"]))
-            sm, sn = len(special.dom), len(special.cod)
-            off = r.randint(0, w - sm)
-            post, cod = g.layers(w - sm + sn, r.randint(0, 3))
+            try:
+                pre, w = g.layers(r.randint(0, W), r.randint(0, 3))
+                kind = ("ident", "sub", "wrap", "unit")[k % 4]
+                if kind == "ident":
+                    m = r.randint(0, min(3, w))
+                    special = make_box("ident:%d" % m, m, m, name=r.choice(["wires", "id", "f"]))
+                elif kind == "unit":
+                    special = make_box("ident:0", 0, 0, name="unit")
+                elif kind == "sub":
+                    a = r.randint(0, min(3, w))
+                    gi = Gen(r, min(W, W - (w - a)), 4)
+                    il, ic = gi.layers(a, r.randint(0, 4))
+                    inner = build_public(a, ic, il) if r.random() < 0.5 else build_ops(r, a, il)
+                    special = sub_box(r.choice(["sub", "f", "<lambda>"]), inner)
+                else:
+                    m = r.randint(0, min(3, w))
+                    n = r.randint(0, min(3, W - (w - m)))
+                    special = make_box(g.token(m, n, "clean"), m, n, wrap=r.choice(sorted(WRAPS)),
+                                       name=r.choice([None, "lookup", "f"]))
+                sm, sn = len(special.dom), len(special.cod)
+                off = r.randint(0, w - sm)
+                post, cod = g.layers(w - sm + sn, r.randint(0, 3))
+            except Refused as e:
+                refused(rep, "hier", e)
+                continue
             layers = pre + [(special, off)] + post
             # the domain the `pre` layers started from
             start = w
@@ -1053,8 +1517,12 @@ def run(tier, seed, replay=None):
                     names=("unique", "disco", "few")[k % 3])
             r = g.rng
             fd, gd = r.randint(0, SW), r.randint(0, SW)
-            fl, fc = g.layers(fd, r.randint(0, 5))
-            gl, gc = g.layers(gd, r.randint(0, 5))
+            try:
+                fl, fc = g.layers(fd, r.randint(0, 5))
+                gl, gc = g.layers(gd, r.randint(0, 5))
+            except Refused as e:
+                refused(rep, "natural", e)
+                continue
             f, h = build_public(fd, fc, fl), build_public(gd, gc, gl)
             xs, ys = g.inputs(fd), g.inputs(gd)
             laws = [
@@ -1092,7 +1560,11 @@ def run(tier, seed, replay=None):
             mode = ("numeric", "mixed", "mixed")[k % 3]
             g = TGen(r, 5, 5, mode, rep)
             dom = r.randint(0, 4)
-            layers, cod = g.layers(dom, r.randint(1, 5))
+            try:
+                layers, cod = g.layers(dom, r.randint(1, 5))
+            except Refused as e:
+                refused(rep, "history", e)
+                continue
             rep.count("history:mode_" + mode)
             how = "public" if k % 2 == 0 else "ops"
             try:
@@ -1154,7 +1626,11 @@ def run(tier, seed, replay=None):
             r = random.Random(rng.getrandbits(64))
             g = TGen(r, 5, 5, ("numeric", "mixed")[k % 2], rep)
             dom = r.randint(0, 4)
-            layers, cod = g.layers(dom, r.randint(0, 4))
+            try:
+                layers, cod = g.layers(dom, r.randint(0, 4))
+            except Refused as e:
+                refused(rep, "function", e)
+                continue
             bs, os_ = [b for b, _ in layers], [o for _, o in layers]
             try:
                 F, width = Function.id(dom), dom
@@ -1172,6 +1648,11 @@ def run(tier, seed, replay=None):
                                       "function", "Function.id(%d) >> layers of %s" % (
                                           dom, " ".join(str(tok_of(b)) for b in bs)), history)
                 history.append("called on %s -> %s" % (show(tuple(xs)), real[:200]))
+        cases.flush(drv)
+
+        # ---- stream callable (oracle only): every KIND of Python callable as a box function
+        stream_callable(rep, cases, random.Random(rng.getrandbits(64)), 2000 if thorough else 250,
+                        thorough)
         cases.flush(drv)
     finally:
         drv.close()
